@@ -310,3 +310,13 @@ package gmtls
 //@   (requires iv (and (bvsge explicitIVLen 0) (bvsle explicitIVLen 255)))
 //@   (requires sent (bvsge (field c packetsSent) 0))
 //@   (ensures range (and (bvsge result 1) (bvsle result 16384))))
+
+// (C06/C07) fragmentation: writeRecordLocked hands every byte of data to the record layer exactly once and in order - each
+// round takes the next m bytes (1 <= m <= 2^14) - and reports len(data) when it returns without error
+//@ (func "(*Conn).writeRecordLocked" sweep split-returns
+//@   (requires nn (and (not (isnil c)) (not (isnil (field c config)))))
+//@   (requires size (bvslt (len data) #x0000010000000000))
+//@   (loop 1 (invariant sum (and (= (bvadd n (len data)) (len data@pre)) (bvsge n 0) (= (obj data) (obj data@pre))
+//@                               (= (off data) (bvadd (off data@pre) n))))
+//@           (decreases (len data)))
+//@   (ensures all (=> (isnil result.1) (= result.0 (len data0)))))
